@@ -442,6 +442,8 @@ where
                     let (mut tmp_ggsw, scratch_1) = scratch_thread.take_ggsw(ggsw_infos);
                     let (mut tmp_lwe, scratch_2) = scratch_1.take_lwe(bits);
                     for (local_bit, dst) in res_bits_chunk.iter_mut().enumerate() {
+                        #[cfg(poulpy_verif)]
+                        crate::bdd_arithmetic::verif_partition::log(1, thread_index, start + local_bit);
                         bits.get_bit_lwe(self, start + local_bit, &mut tmp_lwe, ks_glwe, ks_lwe, scratch_2);
                         cbt.execute_to_constant(self, &mut tmp_ggsw, &tmp_lwe, 1, 1, scratch_2);
                         self.ggsw_prepare(dst, &tmp_ggsw, scratch_2);
